@@ -133,6 +133,8 @@ type prover struct {
 	nn    map[types.Object]int // 0 unknown, 1 nonneg, 2 not, 3 in progress
 	nAlt  int
 	cases map[string]prCase
+	neq   map[string]bool // why-texts of disequality facts (l != 0, not l <= 0); see strengthen
+	cnt   map[types.Object][]prFact
 
 	invariants []*prInvariant
 }
@@ -680,8 +682,60 @@ func (pv *prover) cmpFacts(cond ast.Expr, pos bool, why string) []prFact {
 		if pv.trivial(d) { // x <= y always, hence x <= y-1
 			return []prFact{{d.add(prConst(1), 1), w}}
 		}
+		// neither order is excluded by ranges alone: keep the disequality; it becomes linear
+		// once the other facts of the site exclude one order (i <= n and i != n give i <= n-1)
+		w += " [disequality]"
+		if pv.neq == nil {
+			pv.neq = map[string]bool{}
+		}
+		pv.neq[w] = true
+		return []prFact{{d, w}}
 	}
 	return nil
+}
+
+// strengthen replaces every disequality fact d != 0 by d+1 <= 0 when the plain facts give
+// d <= 0, by 1-d <= 0 when they give d >= 0, and drops it otherwise (integers: no value lies
+// strictly between). Two rounds, so that one strengthened fact can decide the next.
+func (pv *prover) strengthen(facts []prFact) []prFact {
+	if len(pv.neq) == 0 {
+		return facts
+	}
+	var le, ne []prFact
+	for _, f := range facts {
+		if pv.neq[f.why] {
+			ne = append(ne, f)
+		} else {
+			le = append(le, f)
+		}
+	}
+	if len(ne) == 0 {
+		return facts
+	}
+	var basis []prFact
+	for _, f := range le {
+		if _, isCase := pv.cases[f.why]; !isCase {
+			basis = append(basis, f)
+		}
+	}
+	done := make([]bool, len(ne))
+	for round := 0; round < 2; round++ {
+		for i, n := range ne {
+			if done[i] {
+				continue
+			}
+			if ok, why := pv.proveFlat(n.l, basis); ok {
+				done[i] = true
+				f := prFact{n.l.add(prConst(1), 1), n.why + " with <= from " + why}
+				le, basis = append(le, f), append(basis, f)
+			} else if ok, why := pv.proveFlat(prConst(0).add(n.l, -1), basis); ok {
+				done[i] = true
+				f := prFact{prConst(1).add(n.l, -1), n.why + " with >= from " + why}
+				le, basis = append(le, f), append(basis, f)
+			}
+		}
+	}
+	return le
 }
 
 func (pv *prover) factPaths(fs []prFact) []prPath {
@@ -899,6 +953,7 @@ func (pv *prover) defFacts(seed []prPath) []prFact {
 		def := pv.singleDef(v)
 		if def == nil {
 			fs := pv.appendBounded(v)
+			fs = append(fs, pv.counterBounded(v)...)
 			out = append(out, fs...)
 			work = append(work, pv.factPaths(fs)...)
 			continue
@@ -1045,6 +1100,186 @@ func (pv *prover) appendBounded(v *types.Var) []prFact {
 	}
 	_, ll := pv.selfAtom(v)
 	return []prFact{{ll.add(xl, -1), fmt.Sprintf("%s starts empty and gains at most one element per iteration of `range %s`", v.Name(), an.Str(loop.X))}}
+}
+
+// counterBounded recognises a counter that can never run past a length:
+//
+//	var i int | i := K                                   (the only definition, K a constant)
+//	... i++ | i += K' ...                                (every other mutation, K' a positive constant)
+//
+// where at every increment the conditions that dominate it give i + K' <= len(X) for one and
+// the same len(X), the initial value is <= len(X) by value ranges, X is not modified while the
+// function (literal) that declares i runs, and every mutation of i lies in that same function
+// body. Then i <= len(X) holds wherever i is in scope (induction over the mutation sites): a
+// loop `for ; i <= len(X); i++ { if i == len(X) { return }; ... }` is therefore never left
+// through its condition, only by break or return.
+func (pv *prover) counterBounded(v *types.Var) []prFact {
+	if fs, ok := pv.cnt[v]; ok {
+		return fs
+	}
+	if pv.cnt == nil {
+		pv.cnt = map[types.Object][]prFact{}
+	}
+	pv.cnt[v] = nil // in progress / negative result
+	if !prIsInteger(v.Type()) {
+		return nil
+	}
+	ms := pv.varMuts(v)
+	if len(ms) < 2 {
+		return nil
+	}
+	var def ast.Node
+	init := int64(0)
+	type incr struct {
+		n    ast.Node
+		step int64
+	}
+	var incs []incr
+	for _, m := range ms {
+		switch d := m.(type) {
+		case *ast.ValueSpec:
+			if def != nil {
+				return nil
+			}
+			for i, id := range d.Names {
+				if pv.info.Defs[id] != v {
+					continue
+				}
+				if len(d.Values) == 0 {
+					break
+				}
+				if len(d.Values) != len(d.Names) {
+					return nil
+				}
+				k, isC := an.ConstInt(pv.info, d.Values[i])
+				if !isC {
+					return nil
+				}
+				init = k
+			}
+			def = d
+		case *ast.IncDecStmt:
+			if d.Tok != token.INC {
+				return nil
+			}
+			incs = append(incs, incr{d, 1})
+		case *ast.AssignStmt:
+			if len(d.Lhs) != 1 || len(d.Rhs) != 1 {
+				return nil
+			}
+			k, isC := an.ConstInt(pv.info, d.Rhs[0])
+			switch {
+			case d.Tok == token.DEFINE && isC && def == nil:
+				init, def = k, d
+			case d.Tok == token.ADD_ASSIGN && isC && k > 0 && k < 1<<20:
+				incs = append(incs, incr{d, k})
+			default:
+				return nil
+			}
+		default:
+			return nil // address taken, range variable, ...
+		}
+	}
+	if def == nil || len(incs) == 0 {
+		return nil
+	}
+	home := pv.f.enclosingFn(def)
+	homeLit := pv.enclosingLit(def)
+	vl, _ := pv.selfAtom(v)
+	vkey := varKey(v)
+	// candidate bounds: len atoms that occur against v in what is known at the first increment
+	var bound string
+	for i, in := range incs {
+		loc, ok := pv.f.points[in.n]
+		if !ok || loc.fn != home {
+			return nil
+		}
+		facts := pv.strengthen(pv.condFacts(loc))
+		if i == 0 {
+			for _, f := range facts {
+				if f.l.t[vkey] != 1 || len(f.l.t) != 2 {
+					continue
+				}
+				for k, c := range f.l.t {
+					if k != vkey && c == -1 && pv.atoms[k].isLen && strings.HasPrefix(k, "len(") {
+						goal := vl.add(prConst(in.step), 1).add(prLin{t: map[string]int64{k: 1}}, -1)
+						if ok, _ := pv.prove(goal, facts); ok {
+							bound = k
+						}
+					}
+				}
+				if bound != "" {
+					break
+				}
+			}
+			if bound == "" {
+				return nil
+			}
+			continue
+		}
+		goal := vl.add(prConst(in.step), 1).add(prLin{t: map[string]int64{bound: 1}}, -1)
+		if ok, _ := pv.prove(goal, facts); !ok {
+			return nil
+		}
+	}
+	bl := prLin{t: map[string]int64{bound: 1}}
+	if !pv.trivial(prConst(init).add(bl, -1)) {
+		return nil
+	}
+	// the bounded value is not modified while the declaring function runs: every mutation of
+	// its paths lies outside that function (literal), in code that is suspended meanwhile
+	// (straight code of an enclosing function), or is the declaration of the root, made
+	// before v is declared and in whose scope v lives
+	if homeLit != nil {
+		if call, ok := pv.f.parent[homeLit].(*ast.CallExpr); ok {
+			if _, isGo := pv.f.parent[call].(*ast.GoStmt); isGo {
+				return nil
+			}
+		}
+	}
+	for _, pa := range pv.atoms[bound].paths {
+		for _, m := range pv.muts[pa.root] {
+			if !pathAffects(m.key, pa.key) {
+				continue
+			}
+			inside := false
+			if homeLit == nil {
+				inside = true
+			} else if homeLit.Pos() <= m.n.Pos() && m.n.End() <= homeLit.End() {
+				inside = true
+			}
+			if inside {
+				// the root's own declaration, preceding v's, with v declared in its scope
+				if m.key == varKey(pa.root) && m.n.End() <= def.Pos() && pa.root.Parent() != nil && pa.root.Parent().Contains(v.Pos()) {
+					if as, ok := m.n.(*ast.AssignStmt); ok && as.Tok == token.DEFINE {
+						continue
+					}
+					if _, ok := m.n.(*ast.ValueSpec); ok {
+						continue
+					}
+				}
+				return nil
+			}
+			// outside the declaring literal: must be straight code of an enclosing function
+			if ml := pv.enclosingLit(m.n); ml != nil && !(ml.Pos() <= homeLit.Pos() && homeLit.End() <= ml.End()) {
+				return nil
+			}
+		}
+	}
+	why := fmt.Sprintf("%s starts at %d and is only increased where the result is known to be <= %s, which does not change meanwhile", v.Name(), init, prShortKey(bound))
+	fs := []prFact{{vl.add(bl, -1), why}}
+	pv.cnt[v] = fs
+	return fs
+}
+
+// enclosingLit returns the innermost function literal lexically containing n (nil: the declaration body).
+func (pv *prover) enclosingLit(n ast.Node) *ast.FuncLit {
+	for p := pv.f.parent[n]; p != nil; p = pv.f.parent[p] {
+		if fl, ok := p.(*ast.FuncLit); ok {
+			return fl
+		}
+	}
+	return nil
 }
 
 // emptySliceExpr: make([]T, 0[, n]), []T{}, nil.
@@ -1357,6 +1592,7 @@ func (pv *prover) trivial(l prLin) bool {
 // prove: goal <= 0. Facts belonging to a case split are only usable inside their case; the
 // goal must then hold in both cases of that split.
 func (pv *prover) prove(goal prLin, facts []prFact) (bool, string) {
+	facts = pv.strengthen(facts)
 	var plain []prFact
 	alts := map[int]bool{}
 	for _, f := range facts {
@@ -1522,6 +1758,87 @@ func (pv *prover) goalsFor(s prSite) []prGoal {
 // discharge tries to prove every goal of the site. Returns ok, and the reasons when
 // proved or the first unproved goal otherwise.
 func (pv *prover) discharge(s prSite) (bool, string) {
+	ok, why := pv.dischargeAt(s)
+	for depth := 0; !ok && depth < 3; depth++ {
+		hs, via, can := pv.hoistSite(s)
+		if !can {
+			break
+		}
+		if ok2, why2 := pv.dischargeAt(hs); ok2 {
+			return true, why2 + "; " + via
+		}
+		s = hs
+	}
+	return ok, why
+}
+
+// hoistSite: a site inside a function literal that is passed directly to a
+// golang.org/x/crypto/cryptobyte Builder method as its BuilderContinuation is evaluated while
+// that call runs (the builder invokes the continuation before it returns and does not keep
+// it: the package's contract, like io.Reader's for readLike). If nothing the site's bounds
+// mention is assigned anywhere inside the literal, nor by the statement that contains the
+// call, the site may be judged with what is known where the call stands.
+func (pv *prover) hoistSite(s prSite) (prSite, string, bool) {
+	var lit *ast.FuncLit
+	for l, fn := range pv.f.lits {
+		if fn == s.fn {
+			lit = l
+		}
+	}
+	if lit == nil {
+		return s, "", false
+	}
+	call, ok := pv.f.parent[lit].(*ast.CallExpr)
+	if !ok {
+		return s, "", false
+	}
+	isArg := false
+	for _, a := range call.Args {
+		if a == ast.Expr(lit) {
+			isArg = true
+		}
+	}
+	callee, _ := an.Callee(pv.info, call).(*types.Func)
+	if !isArg || callee == nil || callee.Pkg() == nil || !strings.HasSuffix(callee.Pkg().Path(), "golang.org/x/crypto/cryptobyte") {
+		return s, "", false
+	}
+	sig := callee.Type().(*types.Signature)
+	if sig.Recv() == nil || an.TypeName(sig.Recv().Type()) != "Builder" {
+		return s, "", false
+	}
+	cont := false
+	for i := 0; i < sig.Params().Len(); i++ {
+		if n := namedOf(sig.Params().At(i).Type()); n != nil && n.Obj().Name() == "BuilderContinuation" && n.Obj().Pkg() == callee.Pkg() {
+			cont = true
+		}
+	}
+	loc, live := pv.f.points[call]
+	if !cont || !live {
+		return s, "", false
+	}
+	for _, g := range pv.goalsFor(s) {
+		for k := range g.l.t {
+			for _, pa := range pv.atoms[k].paths {
+				for _, m := range pv.muts[pa.root] {
+					if !pathAffects(m.key, pa.key) {
+						continue
+					}
+					if lit.Pos() <= m.n.Pos() && m.n.End() <= lit.End() {
+						return s, "", false
+					}
+					if n := loc.p.Node(); n != nil && n.Pos() <= m.n.Pos() && m.n.End() <= n.End() {
+						return s, "", false
+					}
+				}
+			}
+		}
+	}
+	hs := s
+	hs.fn, hs.p, hs.live = loc.fn, loc.p, true
+	return hs, "judged where the enclosing continuation is passed to " + callee.Name() + " (runs during that call)", true
+}
+
+func (pv *prover) dischargeAt(s prSite) (bool, string) {
 	goals := pv.goalsFor(s)
 	if len(goals) == 0 {
 		return false, "no bounds obligation could be formed"
@@ -1554,6 +1871,10 @@ func (pv *prover) factSummary(facts []prFact) string {
 		if i >= 4 {
 			ss = append(ss, "...")
 			break
+		}
+		if pv.neq[f.why] {
+			ss = append(ss, f.l.String()+"!=0")
+			continue
 		}
 		ss = append(ss, f.l.String()+"<=0")
 	}
